@@ -112,6 +112,24 @@ func encodeOne(v any) string {
 	}
 	// 数值按 SQL 语义归一：1(int)/1.0(float64)/1(uint) 视作相等。否则 JSON 流解码
 	// 出的 float64 键与类型化维度表的 int 键永不匹配，INNER JOIN 静默丢行。
+	// Integers are rendered exactly: going through float64 would merge distinct keys
+	// beyond 2^53 (e.g. 9007199254740992 and 9007199254740993). An integral float64
+	// renders to the same digits ('f' format never uses an exponent), so 1, 1.0 and
+	// uint(1) still share one key.
+	switch x := v.(type) {
+	case int:
+		return "n:" + strconv.FormatInt(int64(x), 10)
+	case int64:
+		return "n:" + strconv.FormatInt(x, 10)
+	case int32:
+		return "n:" + strconv.FormatInt(int64(x), 10)
+	case uint:
+		return "n:" + strconv.FormatUint(uint64(x), 10)
+	case uint64:
+		return "n:" + strconv.FormatUint(x, 10)
+	case uint32:
+		return "n:" + strconv.FormatUint(uint64(x), 10)
+	}
 	if f, ok := numericKeyFloat(v); ok {
 		if f == 0 {
 			f = 0 // 归一 -0.0 → 0
